@@ -184,6 +184,49 @@ pub(crate) mod verif_q {
     pub(crate) fn pred_input<T: Config<Input = u8>>(q: &InputQueue<T>) -> u8 {
         q.prediction.input
     }
+    /// Constructive builder for the session-level step harnesses: a live queue (delay 0) whose window
+    /// holds the frames tail..=la with the given per-slot values, cursors as given, and (optionally) a
+    /// running prediction (frame la+1, input) with first-incorrect frame `fi`.
+    pub(crate) fn build<T: Config<Input = u8>>(
+        la: Frame,
+        tail: Frame,
+        lr: Frame,
+        vals: &[u8; N],
+        pred: Option<u8>,
+        fi: Frame,
+    ) -> InputQueue<T> {
+        let mut q = InputQueue::<T>::new();
+        if la == NULL_FRAME {
+            q.last_requested_frame = lr;
+            if let Some(pv) = pred {
+                q.prediction = PlayerInput::new(0, pv);
+            }
+            return q;
+        }
+        q.head = (la as usize + 1) % N;
+        q.tail = tail as usize % N;
+        q.length = (la - tail + 1) as usize;
+        q.first_frame = false;
+        q.last_added_frame = la;
+        q.last_user_frame = la;
+        q.first_incorrect_frame = fi;
+        q.last_requested_frame = lr;
+        let mut s = 0;
+        while s < N {
+            // the newest frame <= la congruent to s
+            let back = (la - s as Frame).rem_euclid(N as Frame);
+            let g = la - back;
+            if g >= 0 {
+                q.inputs[s] = PlayerInput::new(g, vals[s]);
+            }
+            s += 1;
+        }
+        if let Some(pv) = pred {
+            q.prediction = PlayerInput::new(la + 1, pv);
+        }
+        q
+    }
+
     /// any queue state satisfying the representation invariant, with its ghost prediction base
     pub(crate) fn any_valid<T: Config<Input = u8>>() -> (InputQueue<T>, Frame) {
         let (q, g) = any_queue::<T>();
